@@ -85,11 +85,18 @@ def fam_suffix(tier, rng):
                 b = B()
                 main = [b.const("C", t, num(v)), b.print(cref("C", ref))]
                 out.append({"fam": "const-suffix:%s/%s" % (t, ref or "bare"), "prog": prog(main)})
+                # the same reference inside the expression of a later constant
+                b = B()
+                main = [b.const("C", t, num(v)), b.const("K", "", bin_("+", cref("C", ref), num(1)), suffixed=False), b.print(cref("K"))]
+                out.append({"fam": "const-suffix-in-const:%s/%s" % (t, ref or "bare"), "prog": prog(main)})
     # unsuffixed constants referenced with a suffix: only the type of the expression is accepted
     for v, t in [(7, "I"), (40000, "L")]:
         for ref in ("I", "L", "S", "D"):
             b = B()
             out.append({"fam": "const-typeprobe", "prog": prog([b.const("C", "", num(v)), b.print(cref("C", ref))])})
+            b = B()
+            out.append({"fam": "const-typeprobe-in-const", "prog": prog([b.const("C", "", num(v)), b.const("K", "", bin_("*", cref("C", ref), num(2)), suffixed=False),
+                                                                          b.print(cref("K"))])})
     for e, t in [(lit("S", 2), "S"), (lit("D", 2), "D"), (bin_("/", lit("I", 6), lit("I", 2)), "S"), (lit("$", "x"), "$")]:
         for ref in ("I", "L", "S", "D", "$"):
             b = B()
